@@ -366,6 +366,15 @@ def get_fragments_on_subtype(
                 root_type_def, fragment_root_type_def
             ):
                 fragments.append(fragment_def)
+            # fragments spread by this fragment also select fields of subtypes
+            fragments.extend(
+                get_fragments_on_subtype(
+                    schema,
+                    fragment_def.selection_set,
+                    fragments_definitions,
+                    root_type,
+                )
+            )
 
     return fragments
 
